@@ -5,6 +5,11 @@
 V=$(cd "$(dirname "$0")/.." && pwd)
 pat=${1:-}
 rc=0
+# work on a snapshot so that edits made while this runs do not disturb it
+SNAP=$(mktemp -d /tmp/fvc-snap.XXXXXX)
+mkdir -p "$SNAP/repo" "$SNAP/spec"; cp /repo/*.go /repo/go.mod /repo/go.sum "$SNAP/repo/"; cp "$V"/spec/*.fvs "$SNAP/spec/"; cp "$V/bin/fvc" "$SNAP/fvc"
+export TRY_SRC="$SNAP/repo" TRY_SPEC="$SNAP/spec" TRY_FVC="$SNAP/fvc"
+trap 'rm -rf "$SNAP"' EXIT
 for f in "$V"/selftest/canaries/*${pat}*.patch; do
   c=$(basename "$f" .patch)
   out=$("$V/tools/try.sh" "$f" all 2>&1)
